@@ -39,6 +39,9 @@ pub fn mode_index(m: RoundingMode) -> u8 {
         RoundingMode::RoundHalfEven => 5,
         RoundingMode::RoundHalfUp => 6,
         RoundingMode::RoundUp => 7,
+        // a variant added to the library later must not break the harness
+        #[allow(unreachable_patterns)]
+        _ => 255,
     }
 }
 
